@@ -3,8 +3,8 @@
    (hypotheses of the theorems; sampled against scipy.stats.norm.ppf at run time). *)
 From Coq Require Import Reals QArith List.
 From Zepid Require Import Base.Wald Base.QSum Base.Rows Model.Estimators Model.Variance Proofs.VarianceProofs
-     GenProofs.GenProofs_calc GenProofs.GenProofs_ic GenProofs.GenProofs_pool.
-From ZepidGen Require Import Gen_calc_R Gen_ic_Q Gen_aipw_Q Gen_pool_Q.
+     GenProofs.GenProofs_calc GenProofs.GenProofs_ic GenProofs.GenProofs_pool GenProofs.GenProofs_wprod.
+From ZepidGen Require Import Gen_calc_R Gen_ic_Q Gen_aipw_Q Gen_pool_Q Gen_wprod_Q.
 Import ListNotations.
 
 Definition zq_ok (zq : R -> R) : Prop :=
@@ -143,6 +143,18 @@ Theorem C06_src_pool_mean : forall pts vars,
   fst (pool_mean_Q pts vars) = fst (pool false pts vars) /\ snd (pool_mean_Q pts vars) == snd (pool false pts vars).
 Proof. exact gen_pool_mean. Qed.
 
+(* the weight IPTW.fit hands to the GEE in the CURRENT source = user weight x treatment weight x missingness weight *)
+Theorem C06_src_iptw_fit_weight : forall stab t n c1 c0 r,
+  is_w (iptw_fit_weight_ipmw_w_Q (iptw_w stab t n r) (ipmw_w c1 c0 r) (wt r)) (total_w stab t n c1 c0 r) /\
+  (forall j, wt r == 1 -> is_w (iptw_fit_weight_ipmw_now_Q (iptw_w stab t n r) (ipmw_w c1 c0 r) j) (total_w stab t n c1 c0 r)) /\
+  (forall j, ipmw_w c1 c0 r == 1 -> is_w (iptw_fit_weight_noipmw_w_Q (iptw_w stab t n r) j (wt r)) (total_w stab t n c1 c0 r)) /\
+  (forall j1 j2, wt r == 1 -> ipmw_w c1 c0 r == 1 ->
+     is_w (iptw_fit_weight_noipmw_now_Q (iptw_w stab t n r) j1 j2) (total_w stab t n c1 c0 r)).
+Proof.
+  intros stab t n c1 c0 r. split; [exact (gen_fit_weight_full stab t n c1 c0 r)|]. split; [intros j; exact (gen_fit_weight_no_user stab t n c1 c0 r j)|].
+  split; [intros j; exact (gen_fit_weight_no_missing stab t n c1 c0 r j)|]. intros j1 j2; exact (gen_fit_weight_plain stab t n c1 c0 r j1 j2).
+Qed.
+
 Example C06_nonvacuous : fst (pool true [1#2; 1#4; 3#4] [1#100; 1#100; 4#100]) == 1 # 2 /\
   snd (pool true [1#2; 1#4; 3#4; 1] [1#100; 1#100; 4#100; 0]) == 157 # 1600 /\
   var_ddof1 [1; 2; 4] == 7 # 3 /\ ic_var [Some 1; None; Some 2; Some 4] 4 == 7 # 12.
@@ -181,3 +193,4 @@ Print Assumptions C06_src_aipw_ic_rr.
 Print Assumptions C06_src_aipw_pseudo.
 Print Assumptions C06_src_pool_median.
 Print Assumptions C06_src_pool_mean.
+Print Assumptions C06_src_iptw_fit_weight.
